@@ -65,6 +65,15 @@ func c06Try(t *T, family string, tc *trieCase) {
 
 func c06Gen(c *Ctx) {
 	wideGen(c, -6) // very wide / very large tries, judged by the closed form of Run/C106.v
+	if cs := trieCollisionCases(); true {
+		_, note := trieCollisionHits()
+		c.Note(note)
+		c.Each(len(cs), func(i int, t *T) {
+			tc := *cs[i]
+			tc.repl, tc.mask = []byte("*"), '#'
+			c06Try(t, "code-point-taken-for-lone-byte", &tc)
+		})
+	}
 	// 1. exhaustive: hand-written sets over {a,b,c} x all texts up to length L, replacement "*" / mask '*' and a
 	//    second replacement drawn per case
 	L := c.N(6, 8)
